@@ -55,6 +55,13 @@ fn op_json(o: &Op) -> Value {
 
 const OPS: [Op; 11] = [Op::Req(0), Op::Req(1), Op::Flood, Op::SleepHalf, Op::SleepTwo, Op::SleepAlmostOne, Op::Spawn(0), Op::Spawn(1), Op::Spawn(2), Op::SpawnT(0), Op::SpawnT(1)];
 
+/// identities that differ in their last byte only
+fn near_id(last: u8) -> PeerId {
+    let mut b = [0xcd; 32];
+    b[31] = last;
+    PeerId(b)
+}
+
 #[derive(Clone)]
 struct Inner {
     admitted: Arc<Mutex<Vec<(u8, usize, Instant)>>>,
@@ -69,7 +76,7 @@ impl Service<Request<Bytes>> for Inner {
     }
     fn call(&mut self, req: Request<Bytes>) -> Self::Future {
         let id: usize = req.headers().get("id").unwrap().parse().unwrap();
-        let p = req.peer_id().unwrap().0[0];
+        let p = req.peer_id().unwrap().0[31];
         self.admitted.lock().unwrap().push((p, id, Instant::now()));
         Box::pin(async move { Ok(Response::new(Bytes::new())) })
     }
@@ -136,7 +143,7 @@ fn run_sequence(burst: u32, period_ms: u64, block: bool, seq: &[Op], stall: Opti
                     let must = low[p as usize] >= 1;
                     low[p as usize] = (low[p as usize] - 1).max(0);
                     let mut s = if id % 2 == 0 { svc.clone() } else { svc2.clone() };
-                    let req = Request::new(Bytes::new()).with_header("id", id.to_string()).with_extension(PeerId([p; 32]));
+                    let req = Request::new(Bytes::new()).with_header("id", id.to_string()).with_extension(near_id(p));
                     let called = Instant::now();
                     let r = s.call(req).await;
                     outcomes.lock().unwrap().push(Outcome { peer: p, id, called, returned: Instant::now(), result: r.map(|_| ()).map_err(|e| Some((e.status(), e.headers().get(WAIT_NANOS_HEADER).cloned()))), must_admit: must });
@@ -150,7 +157,7 @@ fn run_sequence(burst: u32, period_ms: u64, block: bool, seq: &[Op], stall: Opti
                     let mut s = if id % 2 == 0 { svc.clone() } else { svc2.clone() };
                     let outcomes = outcomes.clone();
                     handles.push(tokio::spawn(async move {
-                        let mut req = Request::new(Bytes::new()).with_header("id", id.to_string()).with_extension(PeerId([p; 32]));
+                        let mut req = Request::new(Bytes::new()).with_header("id", id.to_string()).with_extension(near_id(p));
                         if with_deadline {
                             req = req.with_timeout(Duration::from_millis(5));
                         }
@@ -168,7 +175,7 @@ fn run_sequence(burst: u32, period_ms: u64, block: bool, seq: &[Op], stall: Opti
                         let mut s = if id % 2 == 0 { svc.clone() } else { svc2.clone() };
                         let outcomes = outcomes.clone();
                         handles.push(tokio::spawn(async move {
-                            let req = Request::new(Bytes::new()).with_header("id", id.to_string()).with_extension(PeerId([0; 32]));
+                            let req = Request::new(Bytes::new()).with_header("id", id.to_string()).with_extension(near_id(0));
                             let called = Instant::now();
                             let r = s.call(req).await;
                             outcomes.lock().unwrap().push(Outcome { peer: 0, id, called, returned: Instant::now(), result: r.map(|_| ()).map_err(|e| Some((e.status(), e.headers().get(WAIT_NANOS_HEADER).cloned()))), must_admit: must });
